@@ -1,6 +1,6 @@
 """C05 — V3 encrypted packet codec: interoperable for every length, tamper-evident."""
 import lanimpl
-from common import hx
+from common import hx, lan_of
 
 
 def rb(rng, n):
@@ -74,6 +74,67 @@ def tamper(ctx, rng, key, data):
             ctx.disagree(stream, inp, out, rep)
 
 
+def session(ctx, rng, n_exchanges):
+    """SEVERAL encrypted requests and responses on ONE connection (one protocol object, one session key): every
+    request must decode at the independent device implementation (and, packet by packet, under the Spec decoder) to
+    the frame and the running counter, and every authentic response must be accepted — nothing of one packet's
+    encryption may leak into the next."""
+    import simdev
+    import vloop
+    from msmart.device.AC.command import GetStateCommand
+    from msmart.device.AC.device import AirConditioner as AC
+    token, key = rb(rng, 64), rb(rng, 32)
+    frames = [rb(rng, rng.choice([1, 13, 14, 15, 16, 30, 31, 32, 33, 60])) for _ in range(n_exchanges)]
+    replies = [[rb(rng, rng.choice([1, 14, 15, 16, 29, 30, 31, 47, 80])) for _ in range(rng.randrange(1, 3))] for _ in frames]
+    dev = simdev.SimDevice(version=3, device_id=7, token=token, key=key)
+    res = {"got": []}
+
+    async def go(loop, net):
+        net.add_tcp("1.2.3.4", 6444, dev)
+        ac = AC(ip="1.2.3.4", port=6444, device_id=7)
+        await ac.authenticate(token, key)
+        for f, r in zip(frames, replies):
+            dev.responder = lambda _f, r=r: list(r)
+            try:
+                res["got"].append(await lan_of(ac).send(f))
+            except Exception as e:  # noqa
+                res["got"].append(lanimpl.canon_exc(e))
+        res["session_key"] = dev.conns[max(dev.conns)]["session_key"]
+    try:
+        vloop.run(go)
+    except Exception as e:  # noqa
+        res["exc"] = lanimpl.canon_exc(e)
+    inp = {"key": hx(key), "frames": [hx(f) for f in frames], "replies": [[hx(x) for x in r] for r in replies]}
+    data = [e for e in dev.log if e["kind"] == "data"]
+    if "exc" in res:
+        ctx.violate("session", inp, res["exc"], "a session", "authentication failed")
+    else:
+        for i, (f, r) in enumerate(zip(frames, replies)):
+            got = res["got"][i]
+            if got != r:
+                ctx.violate("session", {**inp, "exchange": i}, got if isinstance(got, str) else [hx(x) for x in got], [hx(x) for x in r],
+                            "authentic encrypted responses of exchange %d on the connection not accepted / not decoded to the payload" % i)
+                break
+        if len(data) != len(frames):
+            ctx.violate("session", inp, {"data_packets": len(data)}, {"data_packets": len(frames)},
+                        "number of encrypted requests on the wire differs from the number of exchanges")
+        for i, e in enumerate(data[:len(frames)]):
+            want_ctr = i + 1          # the handshake used counter 0
+            if not (e.get("tag_ok") and e.get("decoded") and e.get("frame") == frames[i] and e.get("counter") == want_ctr):
+                ctx.violate("session", {**inp, "request": i}, {k: (hx(v) if isinstance(v, bytes) else v) for k, v in e.items() if k in ("tag_ok", "decoded", "counter", "error", "frame")},
+                            {"tag_ok": True, "decoded": True, "counter": want_ctr, "frame": hx(frames[i])},
+                            "encrypted request %d of the connection does not decode at the device to frame and counter" % i)
+                break
+            if ctx.driver and res.get("session_key"):
+                dec = ctx.driver.ask(f"spec_v3_decode key={hx(res['session_key'])} packet={hx(e['raw'])}")
+                if not dec.startswith(f"ok type=6 ctr={want_ctr} "):
+                    ctx.violate("session", {**inp, "request": i}, dec, f"ok type=6 ctr={want_ctr} data=<V2 packet>",
+                                "independent decoder does not recover request %d of the connection" % i)
+                    break
+    ctx.count(f"session:n={n_exchanges}")
+    ctx.case("session", key=(hx(key), tuple(inp["frames"])), sample={"exchanges": n_exchanges})
+
+
 def run(ctx):
     rng = ctx.rng
     thorough = ctx.tier == "thorough"
@@ -83,6 +144,8 @@ def run(ctx):
             enc_one(ctx, rng, "encode", key, ctr, rb(rng, n))
         if ctx.driver:
             dec_one(ctx, rng, "decode", key, rng.choice([0, 1, 255, 256, 4095, 65535]), rb(rng, n))
+    for _ in range(8 if not thorough else 100):
+        session(ctx, rng, rng.randrange(2, 7))
     if thorough:
         key = rb(rng, 32)
         for ctr in range(4096):
